@@ -13,5 +13,6 @@ impl<T: Copy> Vec<T> {
 impl<T: Copy> core::ops::Deref for Vec<T> { type Target = [T]; fn deref(&self) -> &[T] { unsafe { core::slice::from_raw_parts(self.buf.as_ptr() as *const T, self.len) } } }
 impl<T: Copy> core::ops::DerefMut for Vec<T> { fn deref_mut(&mut self) -> &mut [T] { unsafe { core::slice::from_raw_parts_mut(self.buf.as_mut_ptr() as *mut T, self.len) } } }
 pub struct IntoIter<T: Copy> { v: Vec<T>, i: usize }
-impl<T: Copy> Iterator for IntoIter<T> { type Item = T; fn next(&mut self) -> Option<T> { if self.i < self.v.len { let x = unsafe { self.v.buf[self.i].assume_init() }; self.i += 1; Some(x) } else { None } } }
+impl<T: Copy> Iterator for IntoIter<T> { type Item = T; fn next(&mut self) -> Option<T> { if self.i < VCAP && self.i < self.v.len { // `i < VCAP` is concrete: the loop over a move list ends after VCAP rounds whatever the unwinding bound
+        let x = unsafe { self.v.buf[self.i].assume_init() }; self.i += 1; Some(x) } else { None } } }
 impl<T: Copy> IntoIterator for Vec<T> { type Item = T; type IntoIter = IntoIter<T>; fn into_iter(self) -> IntoIter<T> { IntoIter { v: self, i: 0 } } }
